@@ -240,9 +240,34 @@ def deep5_graphs():
     return [seen[k] for k in sorted(seen)]
 
 
+def big_district_graphs(count, salt):
+    """Five-node ADMGs that are ONE district (a spanning tree of bidirected edges plus a few more) with a pseudo-random
+    set of order-respecting directed edges: IDENTIFY then starts from |T| = 5, which the recursion needs in order to
+    reach a second level with |C| >= 2 (deterministic in `salt`)."""
+    import random
+
+    rnd = random.Random(1000 + salt)
+    nodes = ("A", "B", "C", "D", "E")
+    pairs = list(itt.combinations(nodes, 2))
+    out = []
+    while len(out) < count:
+        perm = list(nodes)
+        rnd.shuffle(perm)
+        # spanning tree: each node after the first attaches to a random earlier one
+        tree = {tuple(sorted((perm[i], perm[rnd.randrange(i)]))) for i in range(1, 5)}
+        extra = {p for p in pairs if rnd.random() < 0.15}
+        di = tuple(p for p in pairs if rnd.random() < 0.45)
+        g = GSpec(nodes, di, tuple(sorted(tree | extra)))
+        if max(len(g.parents(n)) for n in g.nodes) <= 3:
+            out.append(g)
+    return out
+
+
 def jobs_for(t):
     jobs = []
     to = TIMEOUT_MS[t]
+    for g in big_district_graphs(48 if t == "quick" else 400, seed()):
+        jobs.append((g, 1, to))
     k5 = 16 if t == "quick" else 3
     for i, g in enumerate(deep5_graphs()):
         if i % k5 == seed() % k5:
@@ -278,7 +303,7 @@ def run() -> int:
         "returned Expression -> z3 polynomial terms (vf/sem/denote.py)",
     ]
     rep.bounds = {
-        "graphs": "both tiers: a seed-chosen slice (quick 1/16, thorough 1/3) of 268 five-node graphs with nested districts (the graphs of vf/data/id_deep5.json), one topological order; quick: ADMGs <=3 nodes (two labellings, every topological order), curated 4-node graphs (2 orders), 1/4 of the 4-node classes (2 orders); thorough: all ADMGs <=4 nodes (two labellings, 2 orders), curated list",
+        "graphs": "both tiers: 48 (quick) / 400 (thorough) pseudo-random five-node single-district graphs (seeded by VERIF_SEED); a seed-chosen slice (quick 1/16, thorough 1/3) of 268 five-node graphs with nested districts (the graphs of vf/data/id_deep5.json), one topological order; quick: ADMGs <=3 nodes (two labellings, every topological order), curated 4-node graphs (2 orders), 1/4 of the 4-node classes (2 orders); thorough: all ADMGs <=4 nodes (two labellings, 2 orders), curated list",
         "inputs": "every district T; Q[T] = the library's own Lemma-1 product from P(V) and, when every node outside T is an unconfounded root, also the plain conditional P(T | V - T); each form also population-tagged (PP[pi*]), since tian_id.py has separate branches for it (both tiers: every 4-node class with a 3-node district and such a root); every non-empty C subset of T inducing a single district; for every proper ancestral set A = An(C) of G_T: Q[A] by Lemma 3 (compute_ancestral_set_q_value) and Q[D] for EVERY district D of G_A by compute_c_factor on that derived expression (Lemma 4)",
         "models": "all positive binary SCMs, one binary latent per bidirected edge; all value assignments of all variables in one query",
         "per_query_timeout_ms": TIMEOUT_MS[t],
